@@ -57,10 +57,10 @@ theorem pushId_mem {st : IState} {l : List Nat} {id x : Nat} (h : x ∈ pushId s
     · exact Or.inr (by simpa using h)
 
 /-- one own attribute of a part -/
-theorem ownStep_frame (b : Nat) (e : Entity) (st : IState) (l : List Nat) (a : Attr)
+theorem ownStep_frame (ro : Attr → Option String) (b : Nat) (e : Entity) (st : IState) (l : List Nat) (a : Attr)
     (hb : b ≤ st.objs.length) (hl : ∀ id ∈ l, b ≤ id) :
-    SameBelow b st (ownStep e (st, some l) a).1 ∧
-    ∃ l', (ownStep e (st, some l) a).2 = some l' ∧ ∀ id ∈ l', b ≤ id := by
+    SameBelow b st (ownStep ro e (st, some l) a).1 ∧
+    ∃ l', (ownStep ro e (st, some l) a).2 = some l' ∧ ∀ id ∈ l', b ≤ id := by
   let sa : SA := { owner := e.name, name := dictAttrName a, kind := attrDKind a }
   let st1 : IState := { st with objs := st.objs ++ [{ sa := sa }] }
   let l' := pushId st1 l st.objs.length
@@ -75,32 +75,32 @@ theorem ownStep_frame (b : Nat) (e : Entity) (st : IState) (l : List Nat) (a : A
     show ((st.objs ++ [({ sa := sa } : Obj)])[j]?).map _ = _
     unfold flagsAt
     rw [List.getElem?_append_left (by omega)]
-  have hres : ownStep e (st, some l) a =
+  have hres : ownStep ro e (st, some l) a =
       ((if a.redecl.isSome then
-          (match findAttr st2 l' a.name none with | some j => setRedef st2 j | none => st2) else st2), some l') := rfl
+          (match findAttr st2 l' a.name (ro a) with | some j => setRedef st2 j | none => st2) else st2), some l') := rfl
   rw [hres]
   refine ⟨?_, l', rfl, hl'⟩
   by_cases hr : a.redecl.isSome = true
   · simp only [hr, ↓reduceIte]
-    cases hf : findAttr st2 l' a.name none with
+    cases hf : findAttr st2 l' a.name (ro a) with
     | none => exact h12
     | some j => exact h12.trans (sameBelow_setRedef b st2 j (hl' j (findAttr_mem hf)))
   · simp only [hr]; exact h12
 
-theorem ownLoop_frame (b : Nat) (e : Entity) (st : IState) (l : List Nat)
+theorem ownLoop_frame (ro : Attr → Option String) (b : Nat) (e : Entity) (st : IState) (l : List Nat)
     (hb : b ≤ st.objs.length) (hl : ∀ id ∈ l, b ≤ id) :
-    SameBelow b st (ownLoop e st (some l)).1 ∧
-    ∃ l', (ownLoop e st (some l)).2 = some l' ∧ ∀ id ∈ l', b ≤ id := by
+    SameBelow b st (ownLoop ro e st (some l)).1 ∧
+    ∃ l', (ownLoop ro e st (some l)).2 = some l' ∧ ∀ id ∈ l', b ≤ id := by
   unfold ownLoop
   generalize e.attrs.filter (fun a => a.kind == .explicit) = as
   induction as generalizing st l with
   | nil => exact ⟨SameBelow.refl b st, l, rfl, hl⟩
   | cons a as ih =>
     simp only [List.foldl_cons]
-    obtain ⟨s1, l1, e1, hl1⟩ := ownStep_frame b e st l a hb hl
-    have hpair : ownStep e (st, some l) a = ((ownStep e (st, some l) a).1, some l1) := Prod.ext rfl e1
+    obtain ⟨s1, l1, e1, hl1⟩ := ownStep_frame ro b e st l a hb hl
+    have hpair : ownStep ro e (st, some l) a = ((ownStep ro e (st, some l) a).1, some l1) := Prod.ext rfl e1
     rw [hpair]
-    obtain ⟨s2, l2, e2, hl2⟩ := ih (ownStep e (st, some l) a).1 l1 (Nat.le_trans hb s1.1) hl1
+    obtain ⟨s2, l2, e2, hl2⟩ := ih (ownStep ro e (st, some l) a).1 l1 (Nat.le_trans hb s1.1) hl1
     exact ⟨s1.trans s2, l2, e2, hl2⟩
 
 /-- **Frame property of part constructors.**  `ctorWF` (the constructor with arguments, running on an instance with its own
@@ -132,15 +132,15 @@ theorem ctorWF_frame (s : Schema) (b : Nat) (f : Nat) :
       -- everything after the principal supertype's constructor, for any result `p1` of it
       have body : ∀ (p1 : IState × List Nat) (tail : List String), SameBelow b st p1.1 → (∀ id ∈ p1.2, b ≤ id) →
           SameBelow b st
-            (applyDerived (ownLoop e (tail.foldl (fun st q => (ctorWF s f q st []).1) p1.1) (some p1.2)).1
-              ((ownLoop e (tail.foldl (fun st q => (ctorWF s f q st []).1) p1.1) (some p1.2)).2.getD []) (derivedCalls s n)) ∧
-          ∀ id ∈ (ownLoop e (tail.foldl (fun st q => (ctorWF s f q st []).1) p1.1) (some p1.2)).2.getD [], b ≤ id := by
+            (applyDerived (ownLoop (redefOwner s) e (tail.foldl (fun st q => (ctorWF s f q st []).1) p1.1) (some p1.2)).1
+              ((ownLoop (redefOwner s) e (tail.foldl (fun st q => (ctorWF s f q st []).1) p1.1) (some p1.2)).2.getD []) (derivedCalls s n)) ∧
+          ∀ id ∈ (ownLoop (redefOwner s) e (tail.foldl (fun st q => (ctorWF s f q st []).1) p1.1) (some p1.2)).2.getD [], b ≤ id := by
         intro p1 tail hp1 hp2
         have hb1 : b ≤ p1.1.objs.length := Nat.le_trans hb hp1.1
         have h2 := hfold tail p1.1 hb1
         generalize tail.foldl (fun st q => (ctorWF s f q st []).1) p1.1 = st2 at h2
-        obtain ⟨h3, l3, e3, hl3⟩ := ownLoop_frame b e st2 p1.2 (Nat.le_trans hb1 h2.1) hp2
-        have hget : (ownLoop e st2 (some p1.2)).2.getD [] = l3 := by rw [e3]; rfl
+        obtain ⟨h3, l3, e3, hl3⟩ := ownLoop_frame (redefOwner s) b e st2 p1.2 (Nat.le_trans hb1 h2.1) hp2
+        have hget : (ownLoop (redefOwner s) e st2 (some p1.2)).2.getD [] = l3 := by rw [e3]; rfl
         rw [hget]
         exact ⟨((hp1.trans h2).trans h3).trans (applyDerived_frame b _ _ l3 hl3), hl3⟩
       cases hs : e.supers with
@@ -215,10 +215,10 @@ theorem applyDerived_on_head (calls : List (String × String)) (st : IState) (hk
           · exact Or.inr h
 
 /-- the own-attribute loop of a head constructor creates objects and sets `_redefAttr`; it never touches `_derive` -/
-theorem ownStep_none_dAt (e : Entity) (st : IState) (a : Attr) :
-    (ownStep e (st, none) a).2 = none ∧ st.objs.length ≤ (ownStep e (st, none) a).1.objs.length ∧
-    (∀ j, j < st.objs.length → dAt (ownStep e (st, none) a).1 j = dAt st j ∧
-      saAt (ownStep e (st, none) a).1 j = saAt st j) := by
+theorem ownStep_none_dAt (ro : Attr → Option String) (e : Entity) (st : IState) (a : Attr) :
+    (ownStep ro e (st, none) a).2 = none ∧ st.objs.length ≤ (ownStep ro e (st, none) a).1.objs.length ∧
+    (∀ j, j < st.objs.length → dAt (ownStep ro e (st, none) a).1 j = dAt st j ∧
+      saAt (ownStep ro e (st, none) a).1 j = saAt st j) := by
   let sa : SA := { owner := e.name, name := dictAttrName a, kind := attrDKind a }
   let st1 : IState := { st with objs := st.objs ++ [{ sa := sa }] }
   let st2 : IState := { st1 with head := pushId st1 st1.head st.objs.length }
@@ -229,38 +229,38 @@ theorem ownStep_none_dAt (e : Entity) (st : IState) (a : Attr) :
       unfold dAt; rw [List.getElem?_append_left hj]; rfl
     · show ((st.objs ++ [({ sa := sa } : Obj)])[j]?).map (·.sa) = saAt st j
       unfold saAt; rw [List.getElem?_append_left hj]
-  have hres : ownStep e (st, none) a =
+  have hres : ownStep ro e (st, none) a =
       ((if a.redecl.isSome then
-          (match findAttr st2 st2.head a.name none with | some j => setRedef st2 j | none => st2) else st2), none) := rfl
+          (match findAttr st2 st2.head a.name (ro a) with | some j => setRedef st2 j | none => st2) else st2), none) := rfl
   rw [hres]
   refine ⟨rfl, ?_, ?_⟩
   · by_cases hr : a.redecl.isSome = true
     · simp only [hr, ↓reduceIte]
-      cases findAttr st2 st2.head a.name none with
+      cases findAttr st2 st2.head a.name (ro a) with
       | none => simp [st2, st1]
       | some j => simp [setRedef, modAt_length, st2, st1]
     · simp only [hr]; simp [st2, st1]
   · intro j hj
     by_cases hr : a.redecl.isSome = true
     · simp only [hr, ↓reduceIte]
-      cases findAttr st2 st2.head a.name none with
+      cases findAttr st2 st2.head a.name (ro a) with
       | none => exact h2 j hj
       | some i => exact ⟨by rw [dAt_setRedef]; exact (h2 j hj).1, by rw [saAt_setRedef]; exact (h2 j hj).2⟩
     · simp only [hr]; exact h2 j hj
 
-theorem ownLoop_none_dAt (e : Entity) (st : IState) :
-    st.objs.length ≤ (ownLoop e st none).1.objs.length ∧
-    ∀ j, j < st.objs.length → dAt (ownLoop e st none).1 j = dAt st j ∧ saAt (ownLoop e st none).1 j = saAt st j := by
+theorem ownLoop_none_dAt (ro : Attr → Option String) (e : Entity) (st : IState) :
+    st.objs.length ≤ (ownLoop ro e st none).1.objs.length ∧
+    ∀ j, j < st.objs.length → dAt (ownLoop ro e st none).1 j = dAt st j ∧ saAt (ownLoop ro e st none).1 j = saAt st j := by
   unfold ownLoop
   generalize e.attrs.filter (fun a => a.kind == .explicit) = as
   induction as generalizing st with
   | nil => exact ⟨Nat.le_refl _, fun j _ => ⟨rfl, rfl⟩⟩
   | cons a as ih =>
     simp only [List.foldl_cons]
-    obtain ⟨e1, l1, d1⟩ := ownStep_none_dAt e st a
-    have hpair : ownStep e (st, none) a = ((ownStep e (st, none) a).1, none) := Prod.ext rfl e1
+    obtain ⟨e1, l1, d1⟩ := ownStep_none_dAt ro e st a
+    have hpair : ownStep ro e (st, none) a = ((ownStep ro e (st, none) a).1, none) := Prod.ext rfl e1
     rw [hpair]
-    obtain ⟨l2, d2⟩ := ih (ownStep e (st, none) a).1
+    obtain ⟨l2, d2⟩ := ih (ownStep ro e (st, none) a).1
     refine ⟨Nat.le_trans l1 l2, fun j hj => ?_⟩
     have := d2 j (Nat.lt_of_lt_of_le hj l1)
     exact ⟨this.1.trans (d1 j hj).1, this.2.trans (d1 j hj).2⟩
